@@ -85,6 +85,7 @@ type Exec struct {
 	callerFrame     *frame
 	lastArgTypes    map[string]types.Type
 	lastResTypes    map[string]types.Type
+	counters        map[string]bool
 	strLits         map[string]string
 	letDepth        int
 	qrec            map[string]*qRecord
@@ -100,7 +101,7 @@ type qRecord struct {
 func newExec(w *World, u *Unit) *Exec {
 	ex := &Exec{w: w, unit: u, declared: map[string]string{}, keySort: map[string]string{}, defCache: map[string]string{},
 		used: map[string]bool{}, strs: map[string]string{}, loopMods: map[string]map[string]bool{}, loopAll: map[string]bool{}, oblCount: map[string]int{},
-		cellFuncs: map[string]*FuncInfo{}, calledContracts: map[*Contract]bool{}, coverAcc: map[string][]string{}, sentinels: map[string]types.Type{}, qrec: map[string]*qRecord{}, curReach: "true", lastArgTypes: map[string]types.Type{}, lastResTypes: map[string]types.Type{}, strLits: map[string]string{}}
+		cellFuncs: map[string]*FuncInfo{}, calledContracts: map[*Contract]bool{}, coverAcc: map[string][]string{}, sentinels: map[string]types.Type{}, qrec: map[string]*qRecord{}, curReach: "true", lastArgTypes: map[string]types.Type{}, lastResTypes: map[string]types.Type{}, counters: map[string]bool{}, strLits: map[string]string{}}
 	ex.baseInit = &Base{id: 0}
 	ex.declare("str_empty", sStr)
 	return ex
@@ -241,6 +242,10 @@ func (ex *Exec) defaultTerm(key string, b *Base) string {
 	if strings.HasPrefix(key, "X|") {
 		// ghost state is never forgotten implicitly: only explicit updates change it
 		b = ex.baseInit
+	}
+	if strings.HasPrefix(key, "X|expect.") {
+		// what a counter is expected to be starts as the counter itself
+		return ex.defaultTerm("X|"+strings.TrimPrefix(key, "X|expect."), b)
 	}
 	ck := fmt.Sprintf("%d|%s", b.id, key)
 	if t, ok := ex.defCache[ck]; ok {
